@@ -2834,3 +2834,8 @@ impl DerefMut for Sessions {
         &mut self.0
     }
 }
+
+// Verification hook: only the Kani compiler sets `cfg(kani)`; the harnesses live in /verif.
+#[cfg(kani)]
+#[path = "/verif/harness/incrate/service.rs"]
+mod verif_kani;
